@@ -85,7 +85,10 @@ func (m *MTProto) makeAuthKey() error { // nolint don't know how to make method 
 	}
 
 	// check of hash, trandom bytes trail removing occurs in this func already
-	decodedMessage := ige.DecryptMessageWithTempKeys(dhParams.EncryptedAnswer, nonceSecond.Int, nonceServer.Int)
+	decodedMessage, err := decryptDHAnswer(dhParams.EncryptedAnswer, nonceSecond.Int, nonceServer.Int)
+	if err != nil {
+		return err
+	}
 	data, err := tl.DecodeUnknownObject(decodedMessage)
 	if err != nil {
 		return errors.Wrap(err, "decoding response from server")
@@ -164,4 +167,16 @@ func (m *MTProto) makeAuthKey() error { // nolint don't know how to make method 
 	m.encrypted = true
 	err = m.SaveSession()
 	return errors.Wrap(err, "saving session")
+}
+
+// decryptDHAnswer decrypts encrypted_answer of server_DH_params_ok. ige.DecryptMessageWithTempKeys panics
+// when the answer has an impossible length or its SHA1 prefix matches no cut point; an answer like that
+// comes from the peer, so it has to end the key exchange with an error, not the program with a panic.
+func decryptDHAnswer(encryptedAnswer []byte, nonceSecond, nonceServer *big.Int) (answer []byte, err error) {
+	defer func() {
+		if r := recover(); r != nil {
+			err = fmt.Errorf("handshake: bad encrypted_answer: %v", r)
+		}
+	}()
+	return ige.DecryptMessageWithTempKeys(encryptedAnswer, nonceSecond, nonceServer), nil
 }
